@@ -187,3 +187,201 @@ package interpreter
 //@   opt frame-keys F:bt.Input.PreviousTxScript
 //@ func interpreter.opcodeCheckMultiSig
 //@   opt frame-keys F:bt.Input.PreviousTxScript
+
+// ---- stack effects of the data-stack primitives and of arithmetic opcodes (C05, partial) ----
+//@ func interpreter.(*stack).PushByteArray
+//@   bytes array
+//@   ensures[C05.push] (and (= (len (. s stk)) (+ (old (len (. s stk))) 1)) (= (at (. s stk) (old (len (. s stk)))) so))
+// Assumption for the functional contracts below: debugger callbacks observe; they write no memory that existed before
+// the call (they are handed snapshots). Library implementations are checked against it.
+//@ ifaces ^interpreter\.Debugger\.
+//@   pure
+// the functions attached to the library's own debugger (package debug) are the user's: same assumption
+//@ sig threadstatefn "func(state *interpreter.State)"
+//@   pure
+//@ sig stackfn "func(state *interpreter.State, data []byte)"
+//@   pure
+//@ sig execerrfn "func(state *interpreter.State, err error)"
+//@   pure
+// the four hook wrappers of the stack take a snapshot (thread.State: fresh copies) and call the debugger: assumed to write
+// nothing that existed before (the snapshot's freshness is the unbuilt part of C19; callbacks: assumption above)
+//@ funcs ^interpreter\.\(\*stack\)\.(beforeStackPush|afterStackPush|beforeStackPop|afterStackPop)$
+//@   assigns
+//@   trusted "debugger hooks write no memory that existed before the call"
+//@ func interpreter.(*stack).PushByteArray
+//@   opt forall-patterns 1
+//@   ensures[C05.push_rest] (forall ((k Int)) (=> (and (<= 0 k) (< k (old (len (. s stk))))) (= (at (. s stk) k) (old (at (. s stk) k)))))
+//@ func interpreter.(*stack).nipN
+//@   bytes array
+//@   opt forall-patterns 1
+//@   ensures[C05.nip_err] (= (= err nil) (and (<= 0 idx) (< idx (old (len (. s stk))))))
+//@   ensures[C05.nip_top] (=> (and (= err nil) (= idx 0)) (and (= (len (. s stk)) (- (old (len (. s stk))) 1)) (= r0 (old (at (. s stk) (- (len (. s stk)) 1))))))
+//@   ensures[C05.nip_top_rest] (=> (and (= err nil) (= idx 0)) (forall ((k Int)) (=> (and (<= 0 k) (< k (len (. s stk)))) (= (at (. s stk) k) (old (at (. s stk) k))))))
+//@ func interpreter.(*stack).PopByteArray
+//@   opt forall-patterns 1
+//@   ensures[C05.pop_err] (= (= err nil) (>= (old (len (. s stk))) 1))
+//@   ensures[C05.pop] (=> (= err nil) (and (= (len (. s stk)) (- (old (len (. s stk))) 1)) (= r0 (old (at (. s stk) (- (len (. s stk)) 1))))))
+//@   ensures[C05.pop_rest] (=> (= err nil) (forall ((k Int)) (=> (and (<= 0 k) (< k (len (. s stk)))) (= (at (. s stk) k) (old (at (. s stk) k))))))
+//@ func interpreter.makeScriptNumber
+//@   define (=> (= err nil) (= (bigval (. result val)) (num_of (bytes bb))))
+//@ func interpreter.(*scriptNumber).Bytes
+//@   define (= (bytes result) (enc_num (old (bigval (. n val)))))
+//@ func interpreter.(*stack).PopInt
+//@   opt forall-patterns 1
+//@   ensures[C05.popint] (=> (= err nil) (and (>= (old (len (. s stk))) 1) (= (len (. s stk)) (- (old (len (. s stk))) 1)) (= (bigval (. r0 val)) (num_of (old (bytes (at (. s stk) (- (len (. s stk)) 1))))))))
+//@   ensures[C05.popint_rest] (=> (= err nil) (forall ((k Int)) (=> (and (<= 0 k) (< k (len (. s stk)))) (= (at (. s stk) k) (old (at (. s stk) k))))))
+//@ func interpreter.(*stack).PushInt
+//@   opt forall-patterns 1
+//@   ensures[C05.pushint] (and (= (len (. s stk)) (+ (old (len (. s stk))) 1)) (= (bytes (at (. s stk) (old (len (. s stk))))) (enc_num (old (bigval (. n val))))))
+//@   ensures[C05.pushint_rest] (forall ((k Int)) (=> (and (<= 0 k) (< k (old (len (. s stk))))) (= (at (. s stk) k) (old (at (. s stk) k)))))
+
+// arithmetic and comparison opcodes: stack effect over the abstract numbers (num_of / enc_num)
+//@ func interpreter.opcode1Add
+//@   opt forall-patterns 1
+//@   ensures[C05.opcode1Add] (=> (= err nil) (spec.stack_result t 1 (+ (old (spec.top_num t 0)) 1)))
+//@ func interpreter.opcode1Sub
+//@   opt forall-patterns 1
+//@   ensures[C05.opcode1Sub] (=> (= err nil) (spec.stack_result t 1 (- (old (spec.top_num t 0)) 1)))
+//@ func interpreter.opcodeNegate
+//@   opt forall-patterns 1
+//@   ensures[C05.opcodeNegate] (=> (= err nil) (spec.stack_result t 1 (- (old (spec.top_num t 0)))))
+//@ func interpreter.opcodeAbs
+//@   opt forall-patterns 1
+//@   ensures[C05.opcodeAbs] (=> (= err nil) (spec.stack_result t 1 (abs (old (spec.top_num t 0)))))
+//@ func interpreter.opcodeNot
+//@   opt forall-patterns 1
+//@   ensures[C05.opcodeNot] (=> (= err nil) (spec.stack_result t 1 (ite (= (old (spec.top_num t 0)) 0) 1 0)))
+//@ func interpreter.opcode0NotEqual
+//@   opt forall-patterns 1
+//@   ensures[C05.opcode0NotEqual] (=> (= err nil) (spec.stack_result t 1 (ite (distinct (old (spec.top_num t 0)) 0) 1 0)))
+//@ func interpreter.opcodeAdd
+//@   opt forall-patterns 1
+//@   ensures[C05.opcodeAdd] (=> (= err nil) (spec.stack_result t 2 (+ (old (spec.top_num t 1)) (old (spec.top_num t 0)))))
+//@ func interpreter.opcodeSub
+//@   opt forall-patterns 1
+//@   ensures[C05.opcodeSub] (=> (= err nil) (spec.stack_result t 2 (- (old (spec.top_num t 1)) (old (spec.top_num t 0)))))
+//@ func interpreter.opcodeBoolAnd
+//@   opt forall-patterns 1
+//@   ensures[C05.opcodeBoolAnd] (=> (= err nil) (spec.stack_result t 2 (ite (and (distinct (old (spec.top_num t 0)) 0) (distinct (old (spec.top_num t 1)) 0)) 1 0)))
+//@ func interpreter.opcodeBoolOr
+//@   opt forall-patterns 1
+//@   ensures[C05.opcodeBoolOr] (=> (= err nil) (spec.stack_result t 2 (ite (or (distinct (old (spec.top_num t 0)) 0) (distinct (old (spec.top_num t 1)) 0)) 1 0)))
+//@ func interpreter.opcodeNumEqual
+//@   opt forall-patterns 1
+//@   ensures[C05.opcodeNumEqual] (=> (= err nil) (spec.stack_result t 2 (ite (= (old (spec.top_num t 1)) (old (spec.top_num t 0))) 1 0)))
+//@ func interpreter.opcodeNumNotEqual
+//@   opt forall-patterns 1
+//@   ensures[C05.opcodeNumNotEqual] (=> (= err nil) (spec.stack_result t 2 (ite (distinct (old (spec.top_num t 1)) (old (spec.top_num t 0))) 1 0)))
+//@ func interpreter.opcodeLessThan
+//@   opt forall-patterns 1
+//@   ensures[C05.opcodeLessThan] (=> (= err nil) (spec.stack_result t 2 (ite (< (old (spec.top_num t 1)) (old (spec.top_num t 0))) 1 0)))
+//@ func interpreter.opcodeGreaterThan
+//@   opt forall-patterns 1
+//@   ensures[C05.opcodeGreaterThan] (=> (= err nil) (spec.stack_result t 2 (ite (> (old (spec.top_num t 1)) (old (spec.top_num t 0))) 1 0)))
+//@ func interpreter.opcodeLessThanOrEqual
+//@   opt forall-patterns 1
+//@   ensures[C05.opcodeLessThanOrEqual] (=> (= err nil) (spec.stack_result t 2 (ite (<= (old (spec.top_num t 1)) (old (spec.top_num t 0))) 1 0)))
+//@ func interpreter.opcodeGreaterThanOrEqual
+//@   opt forall-patterns 1
+//@   ensures[C05.opcodeGreaterThanOrEqual] (=> (= err nil) (spec.stack_result t 2 (ite (>= (old (spec.top_num t 1)) (old (spec.top_num t 0))) 1 0)))
+//@ func interpreter.opcodeMin
+//@   opt forall-patterns 1
+//@   ensures[C05.opcodeMin] (=> (= err nil) (spec.stack_result t 2 (ite (< (old (spec.top_num t 1)) (old (spec.top_num t 0))) (old (spec.top_num t 1)) (old (spec.top_num t 0)))))
+//@ func interpreter.opcodeMax
+//@   opt forall-patterns 1
+//@   ensures[C05.opcodeMax] (=> (= err nil) (spec.stack_result t 2 (ite (> (old (spec.top_num t 1)) (old (spec.top_num t 0))) (old (spec.top_num t 1)) (old (spec.top_num t 0)))))
+//@ func interpreter.opcodeWithin
+//@   opt forall-patterns 1
+//@   ensures[C05.opcodeWithin] (=> (= err nil) (spec.stack_result t 3 (ite (and (<= (old (spec.top_num t 1)) (old (spec.top_num t 2))) (< (old (spec.top_num t 2)) (old (spec.top_num t 0)))) 1 0)))
+
+// stack manipulation primitives (C05, partial): effect on depth and on the item headers
+//@ func interpreter.(*stack).PeekByteArray
+//@   pure
+//@   ensures[C05.peek] (and (= (= err nil) (and (<= 0 idx) (< idx (len (. s stk))))) (=> (= err nil) (= r0 (at (. s stk) (- (- (len (. s stk)) 1) idx)))))
+//@ func interpreter.(*stack).nipN
+//@   ensures[C05.nip] (=> (= err nil) (and (= (len (. s stk)) (- (old (len (. s stk))) 1)) (= r0 (old (at (. s stk) (- (- (len (. s stk)) 1) idx))))))
+//@   ensures[C05.nip_below] (=> (= err nil) (forall ((k Int)) (=> (and (<= 0 k) (< k (- (- (old (len (. s stk))) 1) idx))) (= (at (. s stk) k) (old (at (. s stk) k))))))
+//@   ensures[C05.nip_above] (=> (= err nil) (forall ((k Int)) (=> (and (<= (- (- (old (len (. s stk))) 1) idx) k) (< k (len (. s stk)))) (= (at (. s stk) k) (old (at (. s stk) (+ k 1)))))))
+//@ func interpreter.(*stack).PickN
+//@   opt forall-patterns 1
+//@   ensures[C05.pick] (and (= (= err nil) (and (<= 0 n) (< n (old (len (. s stk)))))) (=> (= err nil) (and (= (len (. s stk)) (+ (old (len (. s stk))) 1)) (= (at (. s stk) (old (len (. s stk)))) (old (at (. s stk) (- (- (len (. s stk)) 1) n)))))))
+//@   ensures[C05.pick_rest] (=> (= err nil) (forall ((k Int)) (=> (and (<= 0 k) (< k (old (len (. s stk))))) (= (at (. s stk) k) (old (at (. s stk) k))))))
+//@ func interpreter.(*stack).RollN
+//@   opt forall-patterns 1
+//@   ensures[C05.roll] (and (= (= err nil) (and (<= 0 n) (< n (old (len (. s stk)))))) (=> (= err nil) (and (= (len (. s stk)) (old (len (. s stk)))) (= (at (. s stk) (- (len (. s stk)) 1)) (old (at (. s stk) (- (- (len (. s stk)) 1) n)))))))
+//@   ensures[C05.roll_below] (=> (= err nil) (forall ((k Int)) (=> (and (<= 0 k) (< k (- (- (len (. s stk)) 1) n))) (= (at (. s stk) k) (old (at (. s stk) k))))))
+//@   ensures[C05.roll_above] (=> (= err nil) (forall ((k Int)) (=> (and (<= (- (- (len (. s stk)) 1) n) k) (< k (- (len (. s stk)) 1))) (= (at (. s stk) k) (old (at (. s stk) (+ k 1)))))))
+//@ func interpreter.(*stack).DropN
+//@   opt forall-patterns 1
+//@   ensures[C05.drop] (=> (= err nil) (and (>= n 1) (= (len (. s stk)) (- (old (len (. s stk))) n))))
+//@   ensures[C05.drop_rest] (=> (= err nil) (forall ((k Int)) (=> (and (<= 0 k) (< k (len (. s stk)))) (= (at (. s stk) k) (old (at (. s stk) k))))))
+//@   loop 0 invariant (and (<= 0 n) (<= n n0) (= (len (. s stk)) (- (old (len (. s stk))) (- n0 n))))
+//@   loop 0 invariant (forall ((k Int)) (=> (and (<= 0 k) (< k (len (. s stk)))) (= (at (. s stk) k) (old (at (. s stk) k)))))
+//@ func interpreter.(*stack).DropN
+//@   ensures[C05.drop_err] (= (= err nil) (and (>= n 1) (<= n (old (len (. s stk))))))
+//@ func interpreter.(*stack).DupN
+//@   int-overflow check
+//@   ensures[C05.dup] (and (= (= err nil) (and (>= n 1) (<= n (old (len (. s stk)))))) (=> (= err nil) (= (len (. s stk)) (+ (old (len (. s stk))) n))))
+//@   ensures[C05.dup_rest] (=> (= err nil) (forall ((k Int)) (=> (and (<= 0 k) (< k (old (len (. s stk))))) (= (at (. s stk) k) (old (at (. s stk) k))))))
+//@   ensures[C05.dup_items] (=> (= err nil) (forall ((k Int)) (=> (and (<= (old (len (. s stk))) k) (< k (len (. s stk)))) (= (at (. s stk) k) (old (at (. s stk) (- k n)))))))
+//@   loop 0 invariant (and (<= 0 i) (<= i n) (>= n 1) (= (len (. s stk)) (+ (old (len (. s stk))) (- n i))) (or (= i n) (<= n (old (len (. s stk))))))
+//@   loop 0 invariant (forall ((k Int)) (=> (and (<= 0 k) (< k (old (len (. s stk))))) (= (at (. s stk) k) (old (at (. s stk) k)))))
+//@   loop 0 invariant (forall ((k Int)) (=> (and (<= (old (len (. s stk))) k) (< k (len (. s stk)))) (= (at (. s stk) k) (old (at (. s stk) (- k n))))))
+//@ func interpreter.(*stack).OverN
+//@   requires (<= n 1073741823)
+//@   ensures[C05.over] (and (= (= err nil) (and (>= n 1) (<= (* 2 n) (old (len (. s stk)))))) (=> (= err nil) (= (len (. s stk)) (+ (old (len (. s stk))) n))))
+//@   ensures[C05.over_rest] (=> (= err nil) (forall ((k Int)) (=> (and (<= 0 k) (< k (old (len (. s stk))))) (= (at (. s stk) k) (old (at (. s stk) k))))))
+//@   ensures[C05.over_items] (=> (= err nil) (forall ((k Int)) (=> (and (<= (old (len (. s stk))) k) (< k (len (. s stk)))) (= (at (. s stk) k) (old (at (. s stk) (- k (* 2 n0))))))))
+//@   loop 0 invariant (and (<= 0 n) (<= n n0) (>= n0 1) (= entry (- (* 2 n0) 1)) (= (len (. s stk)) (+ (old (len (. s stk))) (- n0 n))) (or (= n n0) (<= (* 2 n0) (old (len (. s stk))))))
+//@   loop 0 invariant (forall ((k Int)) (=> (and (<= 0 k) (< k (old (len (. s stk))))) (= (at (. s stk) k) (old (at (. s stk) k)))))
+//@   loop 0 invariant (forall ((k Int)) (=> (and (<= (old (len (. s stk))) k) (< k (len (. s stk)))) (= (at (. s stk) k) (old (at (. s stk) (- k (* 2 n0)))))))
+//@ func interpreter.(*stack).Tuck
+//@   opt forall-patterns 1
+//@   ensures[C05.tuck] (and (= (= err nil) (>= (old (len (. s stk))) 2)) (=> (= err nil) (and (= (len (. s stk)) (+ (old (len (. s stk))) 1)) (= (at (. s stk) (- (len (. s stk)) 1)) (old (at (. s stk) (- (len (. s stk)) 1)))) (= (at (. s stk) (- (len (. s stk)) 2)) (old (at (. s stk) (- (len (. s stk)) 2)))) (= (at (. s stk) (- (len (. s stk)) 3)) (old (at (. s stk) (- (len (. s stk)) 1)))))))
+//@   ensures[C05.tuck_rest] (=> (= err nil) (forall ((k Int)) (=> (and (<= 0 k) (< k (- (old (len (. s stk))) 2))) (= (at (. s stk) k) (old (at (. s stk) k))))))
+
+// stack manipulation opcodes (C05, partial): depth, moved item headers, everything below untouched
+//@ func interpreter.opcodeDrop
+//@   opt forall-patterns 1
+//@   ensures[C05.opcodeDrop] (and (= (= err nil) (>= (old (len (. t dstack stk))) 1)) (=> (= err nil) (and (= (len (. t dstack stk)) (- (old (len (. t dstack stk))) 1)) (forall ((k Int)) (=> (and (<= 0 k) (< k (len (. t dstack stk)))) (= (at (. t dstack stk) k) (old (at (. t dstack stk) k))))))))
+//@ func interpreter.opcode2Drop
+//@   opt forall-patterns 1
+//@   ensures[C05.opcode2Drop] (and (= (= err nil) (>= (old (len (. t dstack stk))) 2)) (=> (= err nil) (and (= (len (. t dstack stk)) (- (old (len (. t dstack stk))) 2)) (forall ((k Int)) (=> (and (<= 0 k) (< k (len (. t dstack stk)))) (= (at (. t dstack stk) k) (old (at (. t dstack stk) k))))))))
+//@ func interpreter.opcodeDup
+//@   opt forall-patterns 1
+//@   ensures[C05.opcodeDup] (and (= (= err nil) (>= (old (len (. t dstack stk))) 1)) (=> (= err nil) (and (= (len (. t dstack stk)) (+ (old (len (. t dstack stk))) 1)) (= (at (. t dstack stk) (old (len (. t dstack stk)))) (old (at (. t dstack stk) (- (len (. t dstack stk)) 1)))) (forall ((k Int)) (=> (and (<= 0 k) (< k (old (len (. t dstack stk))))) (= (at (. t dstack stk) k) (old (at (. t dstack stk) k))))))))
+//@ func interpreter.opcodeOver
+//@   opt forall-patterns 1
+//@   ensures[C05.opcodeOver] (and (= (= err nil) (>= (old (len (. t dstack stk))) 2)) (=> (= err nil) (and (= (len (. t dstack stk)) (+ (old (len (. t dstack stk))) 1)) (= (at (. t dstack stk) (old (len (. t dstack stk)))) (old (at (. t dstack stk) (- (len (. t dstack stk)) 2)))) (forall ((k Int)) (=> (and (<= 0 k) (< k (old (len (. t dstack stk))))) (= (at (. t dstack stk) k) (old (at (. t dstack stk) k))))))))
+//@ func interpreter.opcodeNip
+//@   opt forall-patterns 1
+//@   ensures[C05.opcodeNip] (and (= (= err nil) (>= (old (len (. t dstack stk))) 2)) (=> (= err nil) (and (= (len (. t dstack stk)) (- (old (len (. t dstack stk))) 1)) (= (at (. t dstack stk) (- (len (. t dstack stk)) 1)) (old (at (. t dstack stk) (- (len (. t dstack stk)) 1)))) (forall ((k Int)) (=> (and (<= 0 k) (< k (- (len (. t dstack stk)) 1))) (= (at (. t dstack stk) k) (old (at (. t dstack stk) k))))))))
+//@ func interpreter.opcodeTuck
+//@   opt forall-patterns 1
+//@   ensures[C05.opcodeTuck] (and (= (= err nil) (>= (old (len (. t dstack stk))) 2)) (=> (= err nil) (and (= (len (. t dstack stk)) (+ (old (len (. t dstack stk))) 1)) (= (at (. t dstack stk) (- (len (. t dstack stk)) 1)) (old (at (. t dstack stk) (- (len (. t dstack stk)) 1)))) (= (at (. t dstack stk) (- (len (. t dstack stk)) 2)) (old (at (. t dstack stk) (- (len (. t dstack stk)) 2)))) (= (at (. t dstack stk) (- (len (. t dstack stk)) 3)) (old (at (. t dstack stk) (- (len (. t dstack stk)) 1)))) (forall ((k Int)) (=> (and (<= 0 k) (< k (- (old (len (. t dstack stk))) 2))) (= (at (. t dstack stk) k) (old (at (. t dstack stk) k))))))))
+//@ func interpreter.opcodeDepth
+//@   opt forall-patterns 1
+//@   ensures[C05.opcodeDepth] (and (= err nil) (= (len (. t dstack stk)) (+ (old (len (. t dstack stk))) 1)) (= (bytes (at (. t dstack stk) (old (len (. t dstack stk))))) (enc_num (old (len (. t dstack stk))))) (forall ((k Int)) (=> (and (<= 0 k) (< k (old (len (. t dstack stk))))) (= (at (. t dstack stk) k) (old (at (. t dstack stk) k))))))
+//@ func interpreter.opcodeSize
+//@   opt forall-patterns 1
+//@   ensures[C05.opcodeSize] (and (= (= err nil) (>= (old (len (. t dstack stk))) 1)) (=> (= err nil) (and (= (len (. t dstack stk)) (+ (old (len (. t dstack stk))) 1)) (= (bytes (at (. t dstack stk) (old (len (. t dstack stk))))) (enc_num (old (len (at (. t dstack stk) (- (len (. t dstack stk)) 1)))))) (forall ((k Int)) (=> (and (<= 0 k) (< k (old (len (. t dstack stk))))) (= (at (. t dstack stk) k) (old (at (. t dstack stk) k))))))))
+//@ func interpreter.opcodeToAltStack
+//@   ensures[C05.opcodeToAltStack] (and (= (= err nil) (>= (old (len (. t dstack stk))) 1)) (=> (= err nil) (and (= (len (. t dstack stk)) (- (old (len (. t dstack stk))) 1)) (= (len (. t astack stk)) (+ (old (len (. t astack stk))) 1)) (= (at (. t astack stk) (old (len (. t astack stk)))) (old (at (. t dstack stk) (- (len (. t dstack stk)) 1)))))))
+//@ func interpreter.opcodeFromAltStack
+//@   ensures[C05.opcodeFromAltStack] (and (= (= err nil) (>= (old (len (. t astack stk))) 1)) (=> (= err nil) (and (= (len (. t dstack stk)) (+ (old (len (. t dstack stk))) 1)) (= (len (. t astack stk)) (- (old (len (. t astack stk))) 1)) (= (at (. t dstack stk) (old (len (. t dstack stk)))) (old (at (. t astack stk) (- (len (. t astack stk)) 1)))))))
+//@ func interpreter.(*stack).NipN
+//@   opt forall-patterns 1
+//@   ensures[C05.nipn] (and (= (= err nil) (and (<= 0 idx) (< idx (old (len (. s stk)))))) (=> (= err nil) (= (len (. s stk)) (- (old (len (. s stk))) 1))))
+//@   ensures[C05.nipn_below] (=> (= err nil) (forall ((k Int)) (=> (and (<= 0 k) (< k (- (- (old (len (. s stk))) 1) idx))) (= (at (. s stk) k) (old (at (. s stk) k))))))
+//@   ensures[C05.nipn_above] (=> (= err nil) (forall ((k Int)) (=> (and (<= (- (- (old (len (. s stk))) 1) idx) k) (< k (len (. s stk)))) (= (at (. s stk) k) (old (at (. s stk) (+ k 1)))))))
+// the data and alt stacks are two structs inside one thread object: their effects are framed per stack, not per object
+//@ func interpreter.(*stack).PushByteArray
+//@   assigns (. s stk) (elems (. s stk))
+//@ func interpreter.(*stack).nipN
+//@   assigns (. s stk) (elems (. s stk))
+//@ func interpreter.(*stack).PopByteArray
+//@   assigns (. s stk) (elems (. s stk))
+//@ func interpreter.(*stack).PopInt
+//@   assigns (. s stk) (elems (. s stk))
+//@ func interpreter.(*stack).PushInt
+//@   assigns (. s stk) (elems (. s stk))
